@@ -61,6 +61,19 @@ pub(in crate::sql) fn prune_inputs(
     mut pipeline: Vec<SqlTransform>,
     ctx: &mut Context,
 ) -> Result<Vec<SqlTransform>> {
+    // verification hook: log what this pass reads and what it returns
+    #[cfg(prqlc_verif)]
+    let verif_in = verif::input(&pipeline, ctx);
+    let res = prune_inputs_inner(std::mem::take(&mut pipeline), ctx);
+    #[cfg(prqlc_verif)]
+    verif::log("prune_inputs", verif_in, verif::output(&res, ctx));
+    res
+}
+
+fn prune_inputs_inner(
+    mut pipeline: Vec<SqlTransform>,
+    ctx: &mut Context,
+) -> Result<Vec<SqlTransform>> {
     use SqlTransform::Super;
 
     let mut used_cids = HashSet::new();
@@ -95,6 +108,16 @@ pub(in crate::sql) fn prune_inputs(
 }
 
 pub(in crate::sql) fn wrap(pipe: Vec<Transform>, ctx: &mut Context) -> Result<Vec<SqlTransform>> {
+    // verification hook: log what this pass reads and what it returns
+    #[cfg(prqlc_verif)]
+    let verif_in = verif::rq_input(&pipe, Some(ctx));
+    let res = wrap_inner(pipe, ctx);
+    #[cfg(prqlc_verif)]
+    verif::log("wrap", verif_in, verif::output(&res, ctx));
+    res
+}
+
+fn wrap_inner(pipe: Vec<Transform>, ctx: &mut Context) -> Result<Vec<SqlTransform>> {
     // We map From and Join into SqlTransforms, because we need to change their RIIds.
     // Others we just wrap into SqlTransform::Super.
 
@@ -125,6 +148,19 @@ fn vecs_contain_same_elements<T: Eq + std::hash::Hash>(a: &[T], b: &[T]) -> bool
 
 /// Creates [SqlTransform::Distinct] from [Transform::Take]
 pub(in crate::sql) fn distinct(
+    pipeline: Vec<SqlTransform>,
+    ctx: &mut Context,
+) -> Result<Vec<SqlTransform>> {
+    // verification hook: log what this pass reads and what it returns
+    #[cfg(prqlc_verif)]
+    let verif_in = verif::input(&pipeline, ctx);
+    let res = distinct_inner(pipeline, ctx);
+    #[cfg(prqlc_verif)]
+    verif::log("distinct", verif_in, verif::output(&res, ctx));
+    res
+}
+
+fn distinct_inner(
     pipeline: Vec<SqlTransform>,
     ctx: &mut Context,
 ) -> Result<Vec<SqlTransform>> {
@@ -279,6 +315,19 @@ pub(in crate::sql) fn union(
     pipeline: Vec<SqlTransform>,
     ctx: &mut Context,
 ) -> Result<Vec<SqlTransform>> {
+    // verification hook: log what this pass reads and what it returns
+    #[cfg(prqlc_verif)]
+    let verif_in = verif::input(&pipeline, ctx);
+    let res = union_inner(pipeline, ctx);
+    #[cfg(prqlc_verif)]
+    verif::log("union", verif_in, verif::output(&res, ctx));
+    res
+}
+
+fn union_inner(
+    pipeline: Vec<SqlTransform>,
+    ctx: &mut Context,
+) -> Result<Vec<SqlTransform>> {
     use SqlTransform::*;
     use Transform::*;
 
@@ -305,6 +354,19 @@ pub(in crate::sql) fn union(
 
 /// Creates [SqlTransform::Except] from [Transform::Join] and [Transform::Filter]
 pub(in crate::sql) fn except(
+    pipeline: Vec<SqlTransform>,
+    ctx: &mut Context,
+) -> Result<Vec<SqlTransform>> {
+    // verification hook: log what this pass reads and what it returns
+    #[cfg(prqlc_verif)]
+    let verif_in = verif::input(&pipeline, ctx);
+    let res = except_inner(pipeline, ctx);
+    #[cfg(prqlc_verif)]
+    verif::log("except", verif_in, verif::output(&res, ctx));
+    res
+}
+
+fn except_inner(
     pipeline: Vec<SqlTransform>,
     ctx: &mut Context,
 ) -> Result<Vec<SqlTransform>> {
@@ -398,6 +460,19 @@ pub(in crate::sql) fn except(
 
 /// Creates [SqlTransform::Intersect] from [Transform::Join]
 pub(in crate::sql) fn intersect(
+    pipeline: Vec<SqlTransform>,
+    ctx: &mut Context,
+) -> Result<Vec<SqlTransform>> {
+    // verification hook: log what this pass reads and what it returns
+    #[cfg(prqlc_verif)]
+    let verif_in = verif::input(&pipeline, ctx);
+    let res = intersect_inner(pipeline, ctx);
+    #[cfg(prqlc_verif)]
+    verif::log("intersect", verif_in, verif::output(&res, ctx));
+    res
+}
+
+fn intersect_inner(
     pipeline: Vec<SqlTransform>,
     ctx: &mut Context,
 ) -> Result<Vec<SqlTransform>> {
@@ -546,6 +621,16 @@ fn col_refs(exprs: Vec<&Expr>) -> Vec<CId> {
 ///   can be circumvented by materializing the column earlier in the pipeline,
 ///   which is done in this function.
 pub(in crate::sql) fn reorder(mut pipeline: Vec<SqlTransform>) -> Vec<SqlTransform> {
+    // verification hook: log what this pass reads and what it returns
+    #[cfg(prqlc_verif)]
+    let verif_in = verif::plain_input(&pipeline);
+    pipeline = reorder_inner(pipeline);
+    #[cfg(prqlc_verif)]
+    verif::log("reorder", verif_in, verif::plain_output(&pipeline));
+    pipeline
+}
+
+fn reorder_inner(mut pipeline: Vec<SqlTransform>) -> Vec<SqlTransform> {
     use SqlTransform::Super;
     use Transform::*;
 
@@ -595,6 +680,16 @@ pub(in crate::sql) fn reorder(mut pipeline: Vec<SqlTransform>) -> Vec<SqlTransfo
 /// - Swap null checks such that null is always on the right side.
 ///   This is needed to simplify code for Except and for compiling to IS NULL.
 pub(in crate::sql) fn normalize(pipeline: Vec<Transform>) -> Result<Vec<Transform>> {
+    // verification hook: log what this pass reads and what it returns
+    #[cfg(prqlc_verif)]
+    let verif_in = verif::rq_input(&pipeline, None);
+    let res = normalize_inner(pipeline);
+    #[cfg(prqlc_verif)]
+    verif::log("normalize", verif_in, verif::rq_output(&res));
+    res
+}
+
+fn normalize_inner(pipeline: Vec<Transform>) -> Result<Vec<Transform>> {
     Normalizer {}.fold_transforms(pipeline)
 }
 
@@ -628,5 +723,231 @@ impl RqFold for Normalizer {
         }
 
         Ok(expr)
+    }
+}
+
+/// Verification hooks (never compiled in normal builds): read-only JSON views of what the
+/// passes above read and return.
+#[cfg(prqlc_verif)]
+mod verif {
+    use serde_json::{json, Value};
+
+    use super::*;
+    use crate::sql::pq::context::{ColumnDecl, RIId};
+    use crate::ir::rq::{RelationColumn, TableRef};
+
+    fn cids(v: &[CId]) -> Vec<usize> {
+        v.iter().map(|c| c.get()).collect()
+    }
+
+    fn sorts(v: &[ColumnSort<CId>]) -> Vec<Value> {
+        v.iter()
+            .map(|s| json!({"cid": s.column.get(), "desc": matches!(s.direction, SortDirection::Desc)}))
+            .collect()
+    }
+
+    fn lit(l: &Literal) -> Value {
+        match l {
+            Literal::Null => json!("null"),
+            Literal::Integer(i) => json!({"int": i}),
+            Literal::Boolean(b) => json!({"bool": b}),
+            other => json!({"other": format!("{other:?}")}),
+        }
+    }
+
+    /// full expression tree; children in the order of `RqFold::fold_expr_kind`
+    fn expr(e: &Expr) -> Value {
+        match &e.kind {
+            ExprKind::ColumnRef(c) => json!({"col": c.get()}),
+            ExprKind::Literal(l) => json!({"lit": lit(l)}),
+            ExprKind::Param(p) => json!({"param": p}),
+            ExprKind::SString(items) => json!({"sstring": items
+                .iter()
+                .filter_map(|i| match i {
+                    InterpolateItem::Expr { expr: e, .. } => Some(expr(e)),
+                    InterpolateItem::String(_) => None,
+                })
+                .collect::<Vec<_>>()}),
+            ExprKind::Case(cases) => json!({"case": cases
+                .iter()
+                .flat_map(|c| [expr(&c.condition), expr(&c.value)])
+                .collect::<Vec<_>>()}),
+            ExprKind::Operator { name, args } => {
+                json!({"op": name, "args": args.iter().map(expr).collect::<Vec<_>>()})
+            }
+            ExprKind::Array(es) => json!({"array": es.iter().map(expr).collect::<Vec<_>>()}),
+        }
+    }
+
+    fn opt_expr(e: &Option<Expr>) -> Value {
+        e.as_ref().map(expr).unwrap_or(Value::Null)
+    }
+
+    fn compute(c: &Compute) -> Value {
+        json!({
+            "id": c.id.get(),
+            "is_aggregation": c.is_aggregation,
+            "expr": expr(&c.expr),
+            "complexity": format!("{:?}", infer_complexity(c)),
+            "window": c.window.as_ref().map(|w| json!({
+                "partition": cids(&w.partition),
+                "sort": sorts(&w.sort),
+                "kind": format!("{:?}", w.frame.kind),
+                "start": opt_expr(&w.frame.range.start),
+                "end": opt_expr(&w.frame.range.end),
+            })),
+        })
+    }
+
+    fn table_ref(t: &TableRef) -> Value {
+        json!({
+            "source": t.source.get(),
+            "cols": t.columns.iter().map(|(col, cid)| json!({
+                "cid": cid.get(),
+                "wild": matches!(col, RelationColumn::Wildcard),
+            })).collect::<Vec<_>>(),
+        })
+    }
+
+    fn rq_transform(t: &Transform) -> Value {
+        match t {
+            Transform::From(r) => json!({"kind": "From", "table": table_ref(r)}),
+            Transform::Compute(c) => json!({"kind": "Compute", "compute": compute(c)}),
+            Transform::Select(c) => json!({"kind": "Select", "cids": cids(c)}),
+            Transform::Filter(e) => json!({"kind": "Filter", "expr": expr(e)}),
+            Transform::Aggregate { partition, compute } => {
+                json!({"kind": "Aggregate", "partition": cids(partition), "cids": cids(compute)})
+            }
+            Transform::Sort(s) => json!({"kind": "Sort", "sort": sorts(s)}),
+            Transform::Take(t) => json!({
+                "kind": "Take",
+                "partition": cids(&t.partition),
+                "sort": sorts(&t.sort),
+                "start": opt_expr(&t.range.start),
+                "end": opt_expr(&t.range.end),
+            }),
+            Transform::Join { side, with, filter } => json!({
+                "kind": "Join",
+                "side": format!("{side:?}"),
+                "table": table_ref(with),
+                "expr": expr(filter),
+            }),
+            Transform::Append(r) => json!({"kind": "Append", "table": table_ref(r)}),
+            Transform::Loop(p) => json!({"kind": "Loop", "pipeline": rq_pipeline(p)}),
+        }
+    }
+
+    fn rq_pipeline(p: &[Transform]) -> Vec<Value> {
+        p.iter().map(rq_transform).collect()
+    }
+
+    fn transform(t: &SqlTransform) -> Value {
+        match t {
+            SqlTransform::Super(t) => json!({"super": rq_transform(t)}),
+            SqlTransform::From(r) => json!({"kind": "From", "riid": r}),
+            SqlTransform::Join { side, with, filter } => json!({
+                "kind": "Join",
+                "side": format!("{side:?}"),
+                "riid": with,
+                "expr": expr(filter),
+            }),
+            SqlTransform::Distinct => json!({"kind": "Distinct"}),
+            SqlTransform::DistinctOn(c) => json!({"kind": "DistinctOn", "cids": cids(c)}),
+            SqlTransform::Sort(s) => json!({"kind": "Sort", "sort": sorts(s)}),
+            SqlTransform::Union { bottom, distinct } => {
+                json!({"kind": "Union", "riid": bottom, "distinct": distinct})
+            }
+            SqlTransform::Except { bottom, distinct } => {
+                json!({"kind": "Except", "riid": bottom, "distinct": distinct})
+            }
+            SqlTransform::Intersect { bottom, distinct } => {
+                json!({"kind": "Intersect", "riid": bottom, "distinct": distinct})
+            }
+            other => json!({"kind": other.as_str(), "unexpected": true}),
+        }
+    }
+
+    fn riids(p: &[SqlTransform]) -> Vec<&RIId> {
+        p.iter()
+            .filter_map(|t| match t {
+                SqlTransform::From(r) | SqlTransform::Join { with: r, .. } => Some(r),
+                SqlTransform::Union { bottom, .. }
+                | SqlTransform::Except { bottom, .. }
+                | SqlTransform::Intersect { bottom, .. } => Some(bottom),
+                _ => None,
+            })
+            .collect()
+    }
+
+    /// what the passes read of the context: the generators, the dialect switches, and of every
+    /// relation instance the pipeline mentions: the columns of its table_ref (and whether
+    /// `contains_wildcard` would say yes for the column)
+    fn context(p: &[SqlTransform], ctx: &Context) -> Value {
+        let a = &ctx.anchor;
+        json!({
+            "next_cid": a.cid.clone().gen().get(),
+            "next_riid": a.riid.clone().gen(),
+            "distinct_on": ctx.dialect.supports_distinct_on(),
+            "except_all": ctx.dialect.except_all(),
+            "intersect_all": ctx.dialect.intersect_all(),
+            "rels": riids(p).into_iter().map(|r| json!({
+                "riid": r,
+                "cols": a.relation_instances.get(r).map(|ri| ri.table_ref.columns.iter().map(|(_, cid)| json!({
+                    "cid": cid.get(),
+                    "wild": matches!(a.column_decls.get(cid), Some(ColumnDecl::RelationColumn(_, _, RelationColumn::Wildcard))),
+                })).collect::<Vec<_>>()),
+            })).collect::<Vec<_>>(),
+        })
+    }
+
+    /// `determine_select_columns` of every prefix of the pipeline
+    fn prefixes(p: &[SqlTransform], ctx: &Context) -> Vec<Vec<usize>> {
+        (0..=p.len())
+            .map(|k| cids(&ctx.anchor.determine_select_columns(&p[..k])))
+            .collect()
+    }
+
+    pub fn input(p: &[SqlTransform], ctx: &Context) -> Value {
+        json!({
+            "pipeline": p.iter().map(transform).collect::<Vec<_>>(),
+            "ctx": context(p, ctx),
+            "select_columns": prefixes(p, ctx),
+        })
+    }
+
+    pub fn output(res: &Result<Vec<SqlTransform>>, ctx: &Context) -> Value {
+        match res {
+            Ok(p) => json!({
+                "pipeline": p.iter().map(transform).collect::<Vec<_>>(),
+                "ctx": context(p, ctx),
+            }),
+            Err(e) => json!({"err": format!("{:?}", e.reason)}),
+        }
+    }
+
+    pub fn plain_input(p: &[SqlTransform]) -> Value {
+        json!({"pipeline": p.iter().map(transform).collect::<Vec<_>>()})
+    }
+
+    pub fn plain_output(p: &[SqlTransform]) -> Value {
+        plain_input(p)
+    }
+
+    pub fn rq_input(p: &[Transform], ctx: Option<&Context>) -> Value {
+        match ctx {
+            Some(ctx) => json!({"pipeline": rq_pipeline(p), "ctx": context(&[], ctx)}),
+            None => json!({"pipeline": rq_pipeline(p)}),
+        }
+    }
+
+    pub fn rq_output(res: &Result<Vec<Transform>>) -> Value {
+        match res {
+            Ok(p) => json!({"pipeline": rq_pipeline(p)}),
+            Err(e) => json!({"err": format!("{:?}", e.reason)}),
+        }
+    }
+
+    pub fn log(pass: &str, input: Value, output: Value) {
+        log::debug!("verif:preprocess {}", json!({"pass": pass, "in": input, "out": output}));
     }
 }
